@@ -219,3 +219,12 @@ Definition W_ON := Eval vm_compute in bs "ON".       Definition W_ASC := Eval vm
 Definition W_DESC := Eval vm_compute in bs "DESC".
 Definition boundary_words : list bytes := Eval vm_compute in
   map bs ["JOIN"; "INNER"; "LEFT"; "RIGHT"; "FULL"; "CROSS"; "ON"; "MATCH_RECOGNIZE"]%string.
+
+(* the TokenType constants in the order of their declaration (compared with the Go constants each run) *)
+Definition token_codes : list N :=
+  [T_EOF; T_Ident; T_Number; T_String; T_QIdent; T_Comma; T_LParen; T_RParen; T_Plus; T_Minus; T_Asterisk;
+   T_Slash; T_EQ; T_NE; T_GT; T_LT; T_GE; T_LE; T_AND; T_OR; T_SELECT; T_FROM; T_WHERE; T_GROUP; T_BY; T_AS;
+   T_Tumbling; T_Sliding; T_Counting; T_Session; T_Global; T_Window; T_Trigger; T_WITH; T_Timestamp;
+   T_TimeUnit; T_MaxOOO; T_AllowedLateness; T_IdleTimeout; T_StateTTL; T_Order; T_DISTINCT; T_LIMIT;
+   T_HAVING; T_LIKE; T_IS; T_NULL; T_NOT; T_CASE; T_WHEN; T_THEN; T_ELSE; T_END; T_LBracket; T_RBracket;
+   T_OVER; T_PARTITION; T_Dot; T_Question; T_Pipe; T_LBrace; T_RBrace].
